@@ -4,6 +4,8 @@
   tools_seeded.py confirm <seeded/ID> [--tests pkg,pkg]   confirm a seeded change in a scratch worktree under /tmp
   tools_seeded.py run <ID> [--props C01,C02] [--tier quick] [--seed N]
                                                           apply seeded/<ID>/patch.diff to /repo, run the checks, undo
+  tools_seeded.py import <Cnn> <A|B> [--summary ..] [--needs ..]  copy a sub-agent deliverable from /tmp/seedout into seeded/
+  tools_seeded.py try <ID> [--props C01,C02] [--tier quick]       like run, but in a scratch worktree under /tmp (leaves /repo alone)
   tools_seeded.py table                                   print the catch table from the meta.json files
 
 Seeded changes are never committed to /repo; `run` refuses to start when /repo
@@ -149,6 +151,75 @@ def cmd_run(a):
     return 0
 
 
+def cmd_import(a):
+    """Copy a sub-agent's deliverable (/tmp/seedout/<Cnn>/<X>) to seeded/<Cnn>-<X>."""
+    src = os.path.join("/tmp/seedout", a.prop, a.variant)
+    d = os.path.join(SEEDED, "%s-%s" % (a.prop, a.variant))
+    os.makedirs(d, exist_ok=True)
+    shutil.copyfile(os.path.join(src, "patch.diff"), os.path.join(d, "patch.diff"))
+    if os.path.isdir(os.path.join(d, "demo")):
+        shutil.rmtree(os.path.join(d, "demo"))
+    shutil.copytree(os.path.join(src, "demo"), os.path.join(d, "demo"))
+    if os.path.exists(os.path.join(src, "notes.md")):
+        shutil.copyfile(os.path.join(src, "notes.md"), os.path.join(d, "notes.md"))
+    m = load_meta(d)
+    m.setdefault("id", "%s-%s" % (a.prop, a.variant))
+    m.setdefault("property", a.prop)
+    m.setdefault("origin", "independent sub-agent given only the property text and a scratch worktree")
+    if a.summary:
+        m["summary"] = a.summary
+    if a.needs:
+        m["needs"] = a.needs
+    save_meta(d, m)
+    print("imported", d)
+    return 0
+
+
+def cmd_try(a):
+    """Like run, but in a scratch worktree (never touches /repo), so that it can run while /repo is in use."""
+    d = os.path.join(SEEDED, a.id)
+    patch = os.path.join(d, "patch.diff")
+    m = load_meta(d)
+    props = a.props.split(",") if a.props else [m.get("property") or a.id[:3]]
+    wt = "/tmp/seedtry-%s-%d" % (a.id, os.getpid())
+    rc, out = sh(["git", "-C", REPO, "worktree", "add", "--detach", "-q", wt, "HEAD"])
+    if rc:
+        print(out)
+        return 2
+    results = []
+    try:
+        rc, out = sh(["git", "apply", patch], cwd=wt)
+        if rc:
+            print("patch does not apply:", out)
+            return 2
+        for p in props:
+            env = dict(os.environ)
+            bd = os.path.join(V, "build-mut")
+            env.update({"VERIF_REPO": wt, "VERIF_BUILD_DIR": bd, "VERIF_EVIDENCE_DIR": os.path.join(bd, "evidence"),
+                        "VERIF_VIOLATIONS_DIR": os.path.join(bd, "violations", a.id)})
+            cmd = ["python3", os.path.join(V, "verif.py"), "check", p, "--tier", a.tier]
+            if a.seed is not None:
+                cmd += ["--seed", str(a.seed)]
+            t0 = time.time()
+            rc, out = sh(cmd, cwd=V, env=env)
+            viol = [l for l in out.splitlines() if l.startswith("VIOLATION")]
+            causes = sorted(set(re.findall(r"cause=([\w:.-]+)", out)))
+            r = {"check": p, "tier": a.tier, "seed": a.seed, "exit": rc, "caught": rc == 1 and bool(viol), "seconds": round(time.time() - t0),
+                 "causes": causes[:6], "violations": len(viol), "where": "scratch worktree of /repo HEAD " + sh(["git", "-C", REPO, "rev-parse", "--short", "HEAD"])[1].strip(),
+                 "verif_commit": sh(["git", "-C", V, "rev-parse", "--short", "HEAD"])[1].strip()}
+            if rc not in (0, 1):
+                r["output_tail"] = "\n".join(out.strip().splitlines()[-8:])
+            results.append(r)
+            print(json.dumps(r))
+    finally:
+        sh(["git", "-C", REPO, "worktree", "remove", "--force", wt])
+        sh(["git", "-C", REPO, "worktree", "prune"])
+    runs = [r for r in m.get("runs", []) if not any(r["check"] == n["check"] and r["tier"] == n["tier"] and r.get("seed") == n.get("seed") for n in results)]
+    m["runs"] = runs + results
+    save_meta(d, m)
+    return 0
+
+
 def cmd_table(a):
     rows = []
     for sid in sorted(os.listdir(SEEDED)):
@@ -178,8 +249,18 @@ def main():
     r.add_argument("--tier", default="quick")
     r.add_argument("--seed", type=int, default=None)
     sub.add_parser("table")
+    i = sub.add_parser("import")
+    i.add_argument("prop")
+    i.add_argument("variant")
+    i.add_argument("--summary", default="")
+    i.add_argument("--needs", default="")
+    y = sub.add_parser("try")
+    y.add_argument("id")
+    y.add_argument("--props", default="")
+    y.add_argument("--tier", default="quick")
+    y.add_argument("--seed", type=int, default=None)
     a = ap.parse_args()
-    return {"confirm": cmd_confirm, "run": cmd_run, "table": cmd_table}[a.cmd](a)
+    return {"confirm": cmd_confirm, "run": cmd_run, "table": cmd_table, "import": cmd_import, "try": cmd_try}[a.cmd](a)
 
 
 if __name__ == "__main__":
